@@ -122,7 +122,117 @@ class _Rewriter(ast.NodeTransformer):
         return node
 
 
+def _has_loop_level(stmts, kind):
+    """a `continue` / `break` that belongs to the loop whose body is stmts (not to a nested loop)"""
+    for s in stmts:
+        if isinstance(s, kind):
+            return True
+        if isinstance(s, (ast.For, ast.While, ast.AsyncFor, ast.FunctionDef, ast.AsyncFunctionDef, ast.ClassDef)):
+            if isinstance(s, (ast.For, ast.While, ast.AsyncFor)) and _has_loop_level(s.orelse, kind):
+                return True
+            continue
+        for fld in ("body", "orelse", "finalbody"):
+            v = getattr(s, fld, None)
+            if isinstance(v, list) and _has_loop_level(v, kind):
+                return True
+        if isinstance(s, ast.Try) and any(_has_loop_level(h.body, kind) for h in s.handlers):
+            return True
+        if isinstance(s, ast.Match) and any(_has_loop_level(c.body, kind) for c in s.cases):
+            return True
+    return False
+
+
+def _same_assign(a, b):
+    return isinstance(a, ast.Assign) and isinstance(b, ast.Assign) and len(a.targets) == 1 and isinstance(a.targets[0], ast.Name) and ast.dump(a.targets[0]) == ast.dump(b.targets[0]) \
+        and ast.dump(a.value) == ast.dump(b.value)
+
+
+def _as_assign(s):
+    if isinstance(s, ast.AnnAssign) and isinstance(s.target, ast.Name) and s.value is not None and s.simple:
+        return ast.copy_location(ast.Assign(targets=[ast.Name(id=s.target.id, ctx=ast.Store())], value=s.value), s)
+    return s
+
+
+class _LoopForms(ast.NodeTransformer):
+    """loops that fetch the next item by a call are brought into one form:
+
+        x = E                                while True:
+        while COND:            ->                x = E
+            BODY                                 if not COND: break
+            x = E                                BODY
+
+        for x in iter(F, SENTINEL):    ->    while True:
+            BODY                                 x = F()
+                                                 if x == SENTINEL: break
+                                                 BODY
+
+    (the first only when BODY has no `continue` of its own: that would skip the re-fetch).  E is evaluated exactly as often and at the same points as before."""
+
+    def __init__(self):
+        self.n = 0
+
+    def _stmts(self, stmts):
+        out = []
+        i = 0
+        while i < len(stmts):
+            s = stmts[i]
+            nxt = stmts[i + 1] if i + 1 < len(stmts) else None
+            a = _as_assign(s)
+            if isinstance(nxt, ast.While) and not nxt.orelse and isinstance(a, ast.Assign) and len(nxt.body) >= 1 and _same_assign(a, nxt.body[-1]) \
+                    and not _has_loop_level(nxt.body[:-1], ast.Continue) and any(isinstance(n, ast.Name) and n.id == a.targets[0].id for n in ast.walk(nxt.test)):
+                self.n += 1
+                fetch = copy.deepcopy(nxt.body[-1])
+                leave = ast.If(test=ast.UnaryOp(op=ast.Not(), operand=nxt.test), body=[ast.Break()], orelse=[])
+                loop = ast.While(test=ast.Constant(value=True), body=[fetch, leave] + self._stmts(nxt.body[:-1]), orelse=[])
+                ast.copy_location(loop, nxt)
+                ast.copy_location(fetch, nxt)
+                for n in ast.walk(leave):
+                    ast.copy_location(n, nxt)
+                ast.fix_missing_locations(loop)
+                out.append(loop)
+                i += 2
+                continue
+            out.append(self.visit(s))
+            i += 1
+        return out
+
+    def generic_visit(self, node):
+        for fld in ("body", "orelse", "finalbody"):
+            v = getattr(node, fld, None)
+            if isinstance(v, list) and v and isinstance(v[0], ast.stmt):
+                setattr(node, fld, self._stmts(v))
+        if isinstance(node, ast.Try):
+            for h in node.handlers:
+                h.body = self._stmts(h.body)
+        if isinstance(node, ast.Match):
+            for c in node.cases:
+                c.body = self._stmts(c.body)
+        return node
+
+    def visit_For(self, node):
+        self.generic_visit(node)
+        it = node.iter
+        if isinstance(it, ast.Call) and isinstance(it.func, ast.Name) and it.func.id == "iter" and len(it.args) == 2 and not it.keywords and not node.orelse \
+                and isinstance(node.target, ast.Name):
+            self.n += 1
+            fetch = ast.Assign(targets=[ast.Name(id=node.target.id, ctx=ast.Store())], value=ast.Call(func=it.args[0], args=[], keywords=[]))
+            leave = ast.If(test=ast.Compare(left=ast.Name(id=node.target.id, ctx=ast.Load()), ops=[ast.Eq()], comparators=[it.args[1]]), body=[ast.Break()], orelse=[])
+            loop = ast.While(test=ast.Constant(value=True), body=[fetch, leave] + node.body, orelse=[])
+            for n in ast.walk(fetch):
+                ast.copy_location(n, node)
+            for n in ast.walk(leave):
+                ast.copy_location(n, node)
+            ast.copy_location(loop, node)
+            ast.fix_missing_locations(loop)
+            return loop
+        return node
+
+
 def desugar(tree: ast.Module) -> ast.Module:
+    lf = _LoopForms()
+    tree.body = lf._stmts(tree.body)
+    if lf.n:
+        ast.fix_missing_locations(tree)
     if not any(_is_reduce(n) for n in ast.walk(tree)):
         return tree
     funcs = {s.name: s for s in tree.body if isinstance(s, ast.FunctionDef)}
